@@ -599,3 +599,33 @@ def k_as_python_int_in_rows(prog: Program, rep, RID: str, classes) -> int:
     if n == 0:
         raise AnalysisError(f"no row with the caller's k as constant side found in {classes}")
     return n
+
+
+def scaling_factors_converted_in_readers(prog: Program, rep, RID: str, sites) -> int:
+    """sites: [(class, method)].  Where a published objective / a validity check is recomputed from the caller's error scaling factors, the factor is
+    float(factor) - the conversion the model's own objective applies.  A raw np.float32 factor makes the product float32 (24-bit: 40000002 * 0.5 is reported
+    as 2e+07 and the model's own optimum can fail its validity check), a Decimal factor raises TypeError."""
+    n = 0
+    for cname, mname in sites:
+        f = prog.own_method(cname, mname)
+        for node in ast.walk(f.node):
+            if not (isinstance(node, ast.BinOp) and isinstance(node.op, ast.Mult)):
+                continue
+            for o in (node.left, node.right):
+                raw = isinstance(o, ast.Call) and isinstance(o.func, ast.Attribute) and o.func.attr == "get" and "edge_error_scaling" in norm(o.func.value)
+                conv = isinstance(o, ast.Call) and dotted(o.func) == "float" and len(o.args) == 1 and "edge_error_scaling" in norm(o.args[0])
+                if isinstance(o, ast.Subscript) and "edge_error_scaling" in norm(o.value):
+                    raw = True
+                if not (raw or conv):
+                    continue
+                n += 1
+                key = f"{cname}.{mname}:scaling-factor-as-float"
+                if conv:
+                    rep.ok(RID, key, f"`{norm(o)[:60]}`", f.loc(node))
+                else:
+                    rep.violation(RID, key, f"`{norm(node)[:90]}` multiplies by the caller's scaling factor as it came, while the objective of the model uses float(factor): with "
+                                  "np.float32(0.5) the product is float32 (40000002 * 0.5 is reported as 2e+07; 100001.3 * np.float32(0.3) fails the model's own validity check), "
+                                  "a Decimal factor raises TypeError from solve()", f.loc(node))
+    if n == 0:
+        raise AnalysisError(f"no product with an error scaling factor found in {sites}")
+    return n
